@@ -495,6 +495,20 @@ def step (s : State) : Op → State
 
 def run (ops : List Op) : State := ops.foldl step {}
 
+/-- the argument of an update is a value of the Go type the API takes -/
+def Op.wtArg : Op → Bool
+  | .setMosn cfg => wt G (.named "MOSNConfig") cfg
+  | .setListener l => wt G (.named "Listener") l
+  | .setCluster c => wt G (.named "Cluster") c
+  | .removeCluster _ => true
+  | .setHosts _ hs => wt G (.slice (.named "Host")) hs
+  | .setRouter r => wt G (.named "RouterConfiguration") r
+  | .setExtend _ _ => true
+  | .setCMTLS tls => wt G (.named "TLSConfig") tls
+  | .persist => true
+  | .reset => true
+
+
 /-! ## dump entry points (apis.go `ConfigDump`) -/
 
 inductive Query where
